@@ -429,6 +429,7 @@ func genBackend(t *rapid.T, c *Client, o genOpts) Backend {
 	b.TrailerStyle = rapid.SampledFrom([]string{"declared", "prefixed"}).Draw(t, "trailer_style")
 	b.TrailerCase = rapid.SampledFrom([]string{"", "", "lower", "mixed", "upper"}).Draw(t, "trailer_case")
 	b.CompressEnd = b.Compress && rapid.IntRange(0, 2).Draw(t, "compress_end") == 0
+	b.CompressError = b.Compress && rapid.IntRange(0, 2).Draw(t, "compress_error") == 0
 	if b.Kind == "ok" {
 		b.OKMessage = rapid.SampledFrom([]string{"", "", "", "OK", "all good"}).Draw(t, "ok_message")
 	}
